@@ -90,12 +90,17 @@ def _cor(case, bad):
             desc = "columns=%r model=%s draws=%d split script (train rows)=%r" % (cols, case["model"], case["draws"], sc)
             res = {}
             variants = [("array", arr), ("frame", frame)]
+            if case["draws"] == 1:
+                # the same table behind other memory layouts (writable, so an in-place standardisation would show)
+                from checks.catalog import layouts
+                variants += [(nm + " array", v) for nm, v in layouts(arr) if nm in ("Fortran order", "transposed window", "negative strides")]
             if (arr == numpy.round(arr)).all():
                 variants.append(("int array", arr.astype(numpy.int64)))      # same table, integer dtype
                 if case.get("tier") == "thorough":
                     variants.append(("int frame", frame.astype(numpy.int64)))
             for kind, data in variants:
                 data0 = data.copy()
+                base0 = None if getattr(data, "base", None) is None or kind.endswith("frame") else numpy.array(data.base, copy=True)
                 if has_seam:
                     mod.train_test_split = _Scripted(sc)
                 else:
@@ -114,7 +119,9 @@ def _cor(case, bad):
                 cnt += 1
                 same_in = data.equals(data0) if kind.endswith("frame") else numpy.array_equal(data, data0)
                 if not same_in:
-                    bad("input modified", cond, desc)
+                    bad("input modified", cond, desc + " input=" + kind)
+                if base0 is not None and not numpy.array_equal(base0, data.base):
+                    bad("memory around the input view modified", cond, desc + " input=" + kind)
                 if not (isinstance(out, tuple) and len(out) == 3):
                     bad("minmax=True does not return (mean, min, max)", cond, desc)
                     res = None
